@@ -257,11 +257,16 @@ Section History.
 End History.
 
 (** ** [gamma_to_natural] for a constant population size *)
+Lemma np_sum_single (x : R) : np_sum RNum [x] = x.
+Proof. reflexivity. Qed.
+
 Section GammaConst.
   Variable ginc : R -> R -> R.
   Variable gam : R -> R.
   Variable powr : R -> R -> R.
   Variable cnorm : R -> R -> R.
+  Variable sqs : R -> R.
+  Hypothesis sqs_def : forall x, sqs x = x * x.
   (** textbook facts about the special functions, as explicit premises *)
   Hypothesis ginc_zero : forall a, 0 < a -> ginc a 0 = 0.
   Hypothesis gam_pos : forall x, 0 < x -> 0 < gam x.
@@ -272,7 +277,7 @@ Section GammaConst.
 
   Lemma gamma_constant_size n h shape rate :
     mk_history RNum [n] [] = Some h -> 0 < shape -> 0 < rate ->
-    gamma_to_natural RNum ginc gam powr cnorm h shape rate = Some (shape, rate / (2 * n)).
+    gamma_to_natural RNum ginc gam powr cnorm sqs h shape rate = Some (shape, rate / (2 * n)).
   Proof.
     intros Hm Hs Hr. destruct (mk_history_spec _ _ _ Hm) as (Htb & Hps & Hcb & Hcr & _ & _ & Hpos).
     assert (Hn : 0 < n) by (apply Hpos; left; reflexivity).
@@ -280,7 +285,8 @@ Section GammaConst.
     assert (E1 : ltb RNum (zero RNum) shape = true) by (apply Rltb_true; exact Hs).
     assert (E2 : ltb RNum (zero RNum) rate = true) by (apply Rltb_true; exact Hr).
     rewrite E1, E2. cbn [andb]. unfold cdf_part. rewrite Htb, Hps, Hcb. cbn [map cbreaks app].
-    unfold diff, map2, sum1, two. cbn [tl combine map fst snd fold_left RNum add sub mul div zero one].
+    unfold diff, map2, two. cbn [tl combine map fst snd].
+    rewrite !np_sum_single, !sqs_def. cbn [RNum add sub mul div zero one].
     rewrite !Rmult_0_r.
     rewrite (ginc_zero (shape + 0)) by lra. rewrite (ginc_zero (shape + 1)) by lra.
     rewrite (ginc_zero (shape + (1 + 1))) by lra.
@@ -440,5 +446,5 @@ Definition ex_pow (_ s : Q) : Q := if Qeq_bool s 2 then 25 else if Qeq_bool s 3 
 
 Lemma C17_gamma_example :
   mk_history QNum [3] [] = Some exh1 /\
-  gamma_to_natural QNum (fun _ _ => 0) ex_gam ex_pow (fun _ _ => 25) exh1 2 5 = Some (2, 5 # 6).
+  gamma_to_natural QNum (fun _ _ => 0) ex_gam ex_pow (fun _ _ => 25) (fun x => x * x) exh1 2 5 = Some (2, 5 # 6).
 Proof. split; vm_compute; reflexivity. Qed.
